@@ -147,15 +147,18 @@ class Path(object):
         self.events = []          # ghost event trace
         self.prune = prune
         self.notes = []
+        self.tags = {}            # z3 ast id of a hypothesis -> tag ("clause name" of a callee contract)
         self._solver = None
 
     # -- path condition -------------------------------------------------
-    def assume(self, cond):
+    def assume(self, cond, tag=None):
         if isinstance(cond, bool):
             if not cond:
                 raise PathEnd()
             return
         self.pc.append(cond)
+        if tag is not None:
+            self.tags[cond.get_id()] = tag
 
     def _feasible(self, extra):
         s = z3.Solver()
@@ -207,10 +210,13 @@ class Path(object):
         return True
 
     # -- obligations ----------------------------------------------------
-    def oblige(self, name, goal, info=None, kind="assert", assume_after=True):
+    def oblige(self, name, goal, info=None, kind="assert", assume_after=True, uses=None):
         if isinstance(goal, bool):
             goal = z3.BoolVal(goal)
-        self.obligations.append(Obligation(name, self.pc, goal, info, kind))
+        hyps = self.pc
+        if uses is not None:
+            hyps = [h for h in self.pc if self.tags.get(h.get_id()) is None or self.tags[h.get_id()] in uses]
+        self.obligations.append(Obligation(name, hyps, goal, info, kind))
         if assume_after:
             self.pc.append(goal)
 
